@@ -2,22 +2,39 @@
 // functions, not catalogue models) on test functions that the extracted Coq
 // model can evaluate identically (same operations in the same order).
 //
-//   ROOT <fspec> <dspec> x0 a b tol conv n
-//       fspec := POLY k c0 .. c(k-1)      Horner  c0 + x*(c1 + x*(...))
-//              | PWL  k x0..x(k-1) y0..y(k-1)   piecewise linear, constant outside
-//              | POW  k m c               k*math.Pow(x,m) - c
-//              | SHPOW k r p              k*(x-r)^p, p a decimal integer, by repeated multiplication
-//       dspec := NONE | fspec             (fn_dx; NONE = nil)
-//       floats as 16 hex digits, n decimal
-//     -> OK <x> <delta> E <ne> <eval points of fn..> D <nd> <eval points of fn_dx..>
-//        (NaN printed as "nan")  |  PANIC
-//   PIECEWISE n xs.. ys.. q   -> OK <y> | ERR | PANIC
+//	ROOT <fspec> <dspec> x0 a b tol conv n
+//	    fspec := POLY k c0 .. c(k-1)      Horner  c0 + x*(c1 + x*(...))
+//	           | PWL  k x0..x(k-1) y0..y(k-1)   piecewise linear, constant outside
+//	           | POW  k m c               k*math.Pow(x,m) - c
+//	           | SHPOW k r p              k*(x-r)^p, p a decimal integer, by repeated multiplication
+//	           | PWT  k x0..x(k-1) y0..y(k-1)   fn.Piecewise(x, xs, ys), -1 on error
+//	    dspec := NONE | fspec             (fn_dx; NONE = nil)
+//	    floats as 16 hex digits, n decimal
+//	  -> OK <x> <delta> E <ne> <eval points of fn..> D <nd> <eval points of fn_dx..>
+//	     (NaN printed as "nan")  |  PANIC
+//	PIECEWISE n xs.. ys.. q   -> OK <y> | ERR | PANIC
+//
+// Re-entrancy (the Coq model is a pure function, so the CODE's re-entrancy has to be exercised):
+//
+//	NEST depth <level_1> .. <level_depth>     level := <fspec> <dspec> x0 a b tol conv n s t
+//	    nested solves: at parent point p (0 for level 1) the residual of level i is
+//	    (f_i(x) - t_i*p) [+ s_i*y when there is a level i+1, y = the root FindRoot returns for level
+//	    i+1 at parent point x].  Every activation is reported, in order of completion:
+//	  -> OK T <count> | L <level> P <p> X <x> <delta> E n e.. V n v.. D n d.. | ...   (V = residual values)
+//	PAR g reps seed k <item_1> .. <item_k>    item := ROOT ... | PIECEWISE ... (as above)
+//	    every item is first run alone; then g goroutines run all items reps times each, each in its
+//	    own shuffled order, yielding the processor inside every residual evaluation
+//	  -> OK R k | <alone output 1> | .. | <alone output k> | C <runs> <mismatches> [| <item index> <concurrent output>]
 package main
 
 import (
 	"bufio"
 	"fmt"
 	"math"
+	"math/rand"
+	"runtime"
+	"strings"
+	"sync"
 
 	"github.com/flowmatters/openwater-core/data"
 	"github.com/flowmatters/openwater-core/util/fn"
@@ -90,52 +107,209 @@ func c18parseFn(t *toks) func(float64) float64 {
 			}
 			return k * acc
 		}
+	case "PWT":
+		// a table lookup through the library's own Piecewise (error -> -1)
+		k := t.int()
+		xv := t.floats(k)
+		yv := t.floats(k)
+		xs := data.NewArray1DFloat64(k)
+		ys := data.NewArray1DFloat64(k)
+		for i := 0; i < k; i++ {
+			xs.Set1(i, xv[i])
+			ys.Set1(i, yv[i])
+		}
+		return func(x float64) float64 {
+			y, err := fn.Piecewise(x, xs, ys)
+			if err != nil {
+				return -1
+			}
+			return y
+		}
 	default:
 		panic("bad function kind " + kind)
 	}
 }
 
-func init() {
-	commands["ROOT"] = func(t *toks, w *bufio.Writer) {
-		f := c18parseFn(t)
-		d := c18parseFn(t)
-		v := t.floats(5)
-		n := t.int()
+func c18floats(b *strings.Builder, tag string, v []float64) {
+	fmt.Fprintf(b, " %s %d", tag, len(v))
+	for _, e := range v {
+		b.WriteByte(' ')
+		b.WriteString(c18hex(e))
+	}
+}
+
+// c18parseRoot parses "<fspec> <dspec> x0 a b tol conv n" into a re-runnable solve.
+func c18parseRoot(t *toks) func(yield bool) string {
+	f := c18parseFn(t)
+	d := c18parseFn(t)
+	v := t.floats(5)
+	n := t.int()
+	return func(yield bool) (out string) {
+		defer func() {
+			if r := recover(); r != nil {
+				out = "PANIC"
+			}
+		}()
 		var evals, devals []float64
-		fw := func(x float64) float64 { evals = append(evals, x); return f(x) }
+		fw := func(x float64) float64 {
+			evals = append(evals, x)
+			if yield {
+				runtime.Gosched()
+			}
+			return f(x)
+		}
 		var dw func(float64) float64
 		if d != nil {
 			dw = func(x float64) float64 { devals = append(devals, x); return d(x) }
 		}
 		x, delta := fn.FindRoot(fw, dw, v[0], v[1], v[2], v[3], v[4], n)
-		fmt.Fprintf(w, "OK %s %s E %d", c18hex(x), c18hex(delta), len(evals))
-		for _, e := range evals {
-			w.WriteByte(' ')
-			w.WriteString(c18hex(e))
-		}
-		fmt.Fprintf(w, " D %d", len(devals))
-		for _, e := range devals {
-			w.WriteByte(' ')
-			w.WriteString(c18hex(e))
-		}
-		w.WriteByte('\n')
+		var b strings.Builder
+		fmt.Fprintf(&b, "OK %s %s", c18hex(x), c18hex(delta))
+		c18floats(&b, "E", evals)
+		c18floats(&b, "D", devals)
+		return b.String()
 	}
-	commands["PIECEWISE"] = func(t *toks, w *bufio.Writer) {
-		n := t.int()
-		xv := t.floats(n)
-		yv := t.floats(n)
-		q := unhex(t.next())
+}
+
+func c18parsePiecewise(t *toks) func(yield bool) string {
+	n := t.int()
+	xv := t.floats(n)
+	yv := t.floats(n)
+	q := unhex(t.next())
+	return func(yield bool) (out string) {
+		defer func() {
+			if r := recover(); r != nil {
+				out = "PANIC"
+			}
+		}()
 		xs := data.NewArray1DFloat64(n)
 		ys := data.NewArray1DFloat64(n)
 		for i := 0; i < n; i++ {
 			xs.Set1(i, xv[i])
 			ys.Set1(i, yv[i])
 		}
+		if yield {
+			runtime.Gosched()
+		}
 		y, err := fn.Piecewise(q, xs, ys)
 		if err != nil {
-			fmt.Fprintln(w, "ERR")
-			return
+			return "ERR"
 		}
-		fmt.Fprintf(w, "OK %s\n", c18hex(y))
+		return "OK " + c18hex(y)
+	}
+}
+
+type c18level struct {
+	f, d                func(float64) float64
+	x0, a, b, tol, conv float64
+	n                   int
+	s, t                float64
+}
+
+// c18nest runs level i at parent point p and appends one record per activation (completion order).
+func c18nest(levels []c18level, i int, p float64, trace *[]string) float64 {
+	L := levels[i]
+	var evals, vals, devals []float64
+	fw := func(x float64) float64 {
+		evals = append(evals, x)
+		v := L.f(x) - float64(L.t*p)
+		if i+1 < len(levels) {
+			y := c18nest(levels, i+1, x, trace)
+			v = v + float64(L.s*y)
+		}
+		vals = append(vals, v)
+		return v
+	}
+	var dw func(float64) float64
+	if L.d != nil {
+		dw = func(x float64) float64 { devals = append(devals, x); return L.d(x) }
+	}
+	x, delta := fn.FindRoot(fw, dw, L.x0, L.a, L.b, L.tol, L.conv, L.n)
+	var b strings.Builder
+	fmt.Fprintf(&b, "L %d P %s X %s %s", i+1, c18hex(p), c18hex(x), c18hex(delta))
+	c18floats(&b, "E", evals)
+	c18floats(&b, "V", vals)
+	c18floats(&b, "D", devals)
+	*trace = append(*trace, b.String())
+	return x
+}
+
+func init() {
+	commands["ROOT"] = func(t *toks, w *bufio.Writer) {
+		fmt.Fprintln(w, c18parseRoot(t)(false))
+	}
+	commands["PIECEWISE"] = func(t *toks, w *bufio.Writer) {
+		fmt.Fprintln(w, c18parsePiecewise(t)(false))
+	}
+	commands["NEST"] = func(t *toks, w *bufio.Writer) {
+		depth := t.int()
+		levels := make([]c18level, depth)
+		for i := range levels {
+			f := c18parseFn(t)
+			d := c18parseFn(t)
+			v := t.floats(5)
+			n := t.int()
+			st := t.floats(2)
+			levels[i] = c18level{f, d, v[0], v[1], v[2], v[3], v[4], n, st[0], st[1]}
+		}
+		var trace []string
+		c18nest(levels, 0, 0, &trace) // a panic (inner "Invalid range") propagates to main's recover
+		fmt.Fprintf(w, "OK T %d | %s\n", len(trace), strings.Join(trace, " | "))
+	}
+	commands["PAR"] = func(t *toks, w *bufio.Writer) {
+		g := t.int()
+		reps := t.int()
+		seed := int64(t.int())
+		k := t.int()
+		items := make([]func(bool) string, k)
+		for i := range items {
+			switch kind := t.next(); kind {
+			case "ROOT":
+				items[i] = c18parseRoot(t)
+			case "PIECEWISE":
+				items[i] = c18parsePiecewise(t)
+			default:
+				panic("bad PAR item " + kind)
+			}
+		}
+		alone := make([]string, k)
+		for i, it := range items {
+			alone[i] = it(false)
+		}
+		type mism struct {
+			idx int
+			out string
+		}
+		var mu sync.Mutex
+		var first *mism
+		runs, bad := 0, 0
+		var wg sync.WaitGroup
+		for gi := 0; gi < g; gi++ {
+			wg.Add(1)
+			go func(gi int) {
+				defer wg.Done()
+				rng := rand.New(rand.NewSource(seed*1000 + int64(gi)))
+				for r := 0; r < reps; r++ {
+					for _, i := range rng.Perm(k) {
+						out := items[i](true)
+						mu.Lock()
+						runs++
+						if out != alone[i] {
+							bad++
+							if first == nil {
+								first = &mism{i, out}
+							}
+						}
+						mu.Unlock()
+					}
+				}
+			}(gi)
+		}
+		wg.Wait()
+		fmt.Fprintf(w, "OK R %d | %s | C %d %d", k, strings.Join(alone, " | "), runs, bad)
+		if first != nil {
+			fmt.Fprintf(w, " | %d %s", first.idx, first.out)
+		}
+		w.WriteByte('\n')
 	}
 }
